@@ -437,6 +437,10 @@ func sendHelloDevice(ctx context.Context, transport Transport, c *TO2Config) (pr
 			captureErr(ctx, protocol.MessageBodyErrCode, "")
 			return protocol.Nonce{}, nil, nil, fmt.Errorf("error parsing TO2.ProveOVHdr contents: %w", err)
 		}
+		if proveOVHdr.Payload == nil {
+			captureErr(ctx, protocol.MessageBodyErrCode, "")
+			return protocol.Nonce{}, nil, nil, fmt.Errorf("error parsing TO2.ProveOVHdr contents: no payload")
+		}
 		defer clear(proveOVHdr.Payload.Val.KeyExchangeA)
 
 	case protocol.ErrorMsgType:
@@ -452,6 +456,12 @@ func sendHelloDevice(ctx context.Context, transport Transport, c *TO2Config) (pr
 	}
 
 	// Validate the HelloDeviceHash
+	switch proveOVHdr.Payload.Val.HelloDeviceHash.Algorithm {
+	case protocol.Sha256Hash, protocol.Sha384Hash:
+	default:
+		captureErr(ctx, protocol.InvalidMessageErrCode, "")
+		return protocol.Nonce{}, nil, nil, fmt.Errorf("unsupported hash algorithm for HelloDevice hash in TO2.ProveOVHdr: %d", int64(proveOVHdr.Payload.Val.HelloDeviceHash.Algorithm))
+	}
 	helloDeviceHash := proveOVHdr.Payload.Val.HelloDeviceHash.Algorithm.HashFunc().New()
 	if err := cbor.NewEncoder(helloDeviceHash).Encode(hello); err != nil {
 		return protocol.Nonce{}, nil, nil, fmt.Errorf("error hashing HelloDevice message to verify against TO2.ProveOVHdr payload's hash: %w", err)
@@ -853,6 +863,10 @@ func proveDevice(ctx context.Context, transport Transport, proveDeviceNonce prot
 			captureErr(ctx, protocol.MessageBodyErrCode, "")
 			return protocol.Nonce{}, nil, fmt.Errorf("error parsing TO2.SetupDevice contents: %w", err)
 		}
+		if setupDevice.Payload == nil {
+			captureErr(ctx, protocol.MessageBodyErrCode, "")
+			return protocol.Nonce{}, nil, fmt.Errorf("error parsing TO2.SetupDevice contents: no payload")
+		}
 		if setupDevice.Payload.Val.NonceTO2SetupDv != setupDeviceNonce {
 			captureErr(ctx, protocol.InvalidMessageErrCode, "")
 			return protocol.Nonce{}, nil, fmt.Errorf("nonce in TO2.SetupDevice did not match nonce sent in TO2.ProveDevice")
@@ -915,6 +929,9 @@ func (s *TO2Server) setupDevice(ctx context.Context, msg io.Reader) (*cose.Sign1
 	var proof cose.Sign1Tag[cbor.RawBytes, []byte]
 	if err := cbor.NewDecoder(msg).Decode(&proof); err != nil {
 		return nil, fmt.Errorf("error decoding TO2.ProveDevice request: %w", err)
+	}
+	if proof.Payload == nil {
+		return nil, fmt.Errorf("error decoding TO2.ProveDevice request: EAT has no payload")
 	}
 	var eat eatoken
 	if err := cbor.Unmarshal([]byte(proof.Payload.Val), &eat); err != nil {
